@@ -6,12 +6,19 @@ _cache = {}
 
 
 def engine(config="default"):
+    config = config or "default"
     if config not in _cache:
         fx = facts.load(config)
         prog = model.Program(fx, config)
         T = tables.Tables(prog)
         _cache[config] = (prog, T)
     return _cache[config]
+
+
+def configs(tier):
+    # thorough: every feature configuration, longer lists / queues in the collector-step tables
+    tables.THOROUGH = tier != "quick"
+    return ["default"] if tier == "quick" else ["default", "nodefault", "all"]
 
 
 _auto = {}
@@ -77,8 +84,9 @@ SPECS = {
 }
 
 
-def apply(chk, rule, table, config="default", only=None, specfn=None):
+def apply(chk, rule, table, config=None, only=None, specfn=None):
     """Evaluate the spec of `table` on every extracted row; one rule instance per row."""
+    config = config or chk.cfg or "default"
     prog, T = engine(config)
     rows = T.get(table)
     fn = specfn or SPECS[table]
@@ -102,8 +110,9 @@ def apply(chk, rule, table, config="default", only=None, specfn=None):
     return n
 
 
-def report_automaton(chk, invariants, config="default"):
+def report_automaton(chk, invariants, config=None):
     """Register the automaton's invariant verdicts owned by this property."""
+    config = config or chk.cfg or "default"
     A = auto(config)
     chk.extra["automaton"] = A.summary()
     chk.extra["abstract_states"] = A.summary()["states"]
